@@ -123,8 +123,19 @@ def want_crossing(tx, pop):
 
 
 def r12(chk):
-    fn = chk.fn(NN, "NonnegMean.sample_size", single_exit=True)
     where = f"{NN}:NonnegMean.sample_size"
+    # first (stands even if the structure below is not recognised): the estimate leaves the function only from the
+    # deterministic branch, from the simulation branch, or at the very end -- not from a shortcut taken on the data in hand
+    # (the history of the data alone is not a prefix of the history of the population: the last-entry convention differs)
+    raw = chk.fn(NN, "NonnegMean.sample_size")
+    split = [s for s in raw.body if isinstance(s, ast.If) and norm(s.test) in ("repsisNone", "repsisnotNone")]
+    inside = {id(r) for sp_ in split for r in ast.walk(sp_) if isinstance(r, ast.Return)}
+    shortcuts = [r for r in walk_local(raw) if isinstance(r, ast.Return) and id(r) not in inside and r is not raw.body[-1]]
+    chk.ob("C16.R2", where, "no-exit-before-the-population", not shortcuts,
+           "every estimate is returned by the deterministic branch, by the simulation branch, or at the end of the function: there is "
+           "no earlier exit computed from the data in hand", node=shortcuts[0] if shortcuts else raw, strength="N",
+           shortcuts=[f"line {r.lineno}: {norm(r)[:60]}" for r in shortcuts])
+    fn = chk.fn(NN, "NonnegMean.sample_size", single_exit=True)
     top, det, sim = branches(fn)
     R = roles_sample_size(fn, det, sim)
     POP, NN_, RES, SAMS = R["pop_det"], R["N"], R["result"], R["sams"]
